@@ -73,6 +73,7 @@ def _c20_sweep(tier):
     knobs = dict(DEFAULT_KNOBS)
     made = 0
     i = 0
+    have_hessian = False
     while made < nsc and i < 200:
         r = random.Random(gen.run_seed(20200, "C20-sweep", i))
         i += 1
@@ -87,6 +88,10 @@ def _c20_sweep(tier):
         lp = evs[0]["seam"] == "linprog"
         if K > cap or (not lp and K == 0):
             continue
+        uses_hessian = any((e.get("cb") or {}).get("hess") for e in evs)
+        if made == nsc - 1 and not have_hessian and not uses_hessian and i < 150:
+            continue  # the last enumerated scenario is one whose solver calls the Hessian
+        have_hessian = have_hessian or uses_hessian
         made += 1
         sites = [{"site": "entry"}, {"site": "exit"}] + ([] if lp else [{"site": "cb", "k": k} for k in range(1, K + 1)])
         if len(evs) > 1:
@@ -102,7 +107,7 @@ def _c20_sweep(tier):
             sites += [{"site": "eval", "of": of, "k": k} for of in ("compile_hessian", "compile_jacobian", "compile_expression")
                       for k in ((1, 2) if tier == "quick" else (1, 2, 3, 5))]
         for site in sites:
-            for exc in (gen.EXC_CLASSES if site["site"] not in ("cbi", "eval") or tier != "quick" else ["KeyboardInterrupt", "ValueError"]):
+            for exc in (gen.EXC_CLASSES if site["site"] not in ("cbi", "eval") or tier != "quick" or "of" in site else ["KeyboardInterrupt", "ValueError"]):
                 f = dict(site, exc=exc)
                 ops = sc["prefix"] + [gen.with_fault(sc["target"], f)] + sc["suffix"]
                 tag = f"sc{i - 1}:{evs[0].get('method')}:K{K}:{site['site']}{site.get('k', '')}j{site.get('j', '')}a{site.get('after_exit', '')}o{site.get('of', '')}e{site.get('entry', 0)}:{exc}"
